@@ -12,6 +12,13 @@ read by harness/props/_graphgen.parse (tab splitting; E lines classified by geom
     segment), every line not touching a chain textually unchanged, nothing else new, components preserved with each
     chain collapsed, references closed and mirrored, a second merge changes nothing.
 
+Signatures of merge-phase failures carry a domain prefix (vlevel3- / mixedseq- / gfa2-, see oracle()) so that the
+open roots seen on the tree (merge at validation level 3; chains mixing `*` and sequence members; GFA2 edge
+coordinates never recomputed for the merged segment) do not share signatures with plain GFA1 regressions.  When an
+E line of the result has positions that are invalid for its segments (`$` not at the segment length, end beyond
+the length) only `merged-edge-positions-invalid` is reported, because every later text comparison would echo it;
+otherwise the result is read with gfapy's own `$`-based rule so that orientation errors stay visible.
+
 NOT CHECKED (the property text does not settle it, or the documented behaviour is unclear):
   * whether a pure cycle (every join usable) is reported by linear_paths(): accepted either way; if it is reported,
     any rotation/direction is accepted and the merge is then checked for that rotation (closing join -> self-link).
@@ -78,7 +85,36 @@ def _edge_cut(e):
     return e["cut"]
 
 
+QUERY_PHASE = ("linear-paths-", "linear-path-of-segment-")
+
+
 def oracle(case):
+    """failures of the merge phase get a domain prefix so that one root keeps one family of signatures:
+    vlevel3- (validation level 3), mixedseq- (a chain mixes `*` and sequence members), gfa2- (GFA2 document)"""
+    F = _oracle(case)
+    if not F:
+        return F
+    d = G.parse(case["lines"], case["version"])
+    paths, cycles, _ = G.chains(d)
+    mixed = any(len(set(d.segs[s]["seq"] is None for s, _ in p)) == 2 for p in paths + cycles)
+    out = []
+    for f in F:
+        if f.startswith(QUERY_PHASE):
+            out.append(f)
+        elif case.get("vlevel") == 3 and f.startswith("merge-raises-TypeError"):
+            out.append("vlevel3-" + f)
+        elif mixed and f.startswith(("merge-raises-foreign", "merged-length", "merged-sequence")):
+            out.append("mixedseq-" + f)
+        elif case["version"] == "gfa2":
+            out.append("gfa2-" + f)
+        elif mixed:
+            out.append("mixedseq-" + f)
+        else:
+            out.append(f)
+    return out
+
+
+def _oracle(case):
     gfapy = lib.import_gfapy()
     F = []
     try:
@@ -137,7 +173,7 @@ def oracle(case):
     # ---------------------------------------------------------------- merge
     r = lib.outcome(g.merge_linear_paths)
     if r[0] != "ok":
-        return ["merge-raises-%s: %s on chains %r (vlevel %s)" % (r[1], r[0], todo, case.get("vlevel", 1))]
+        return ["merge-raises-%s%s: on chains %r (vlevel %s)" % ("foreign-" if r[0] == "foreign" else "", r[1], todo, case.get("vlevel", 1))]
     text1 = str(g)
     d1 = G.parse(text1, case["version"])
     d1d = G.parse(text1, case["version"], dollar=True)
@@ -201,6 +237,13 @@ def oracle(case):
             if m["len"] != want_len:
                 F.append("merged-length-wrong: chain %r lengths %r cuts %r: got %r expected %d" % (q, lens, cuts, m["len"], want_len))
 
+    bad_pos = [e["line"] for e in d1.edges if not e["valid"]]
+    if bad_pos:
+        # one root, one signature: the E lines re-attached to the merged segment keep the coordinates they had on
+        # the member (checked first because every later text-level comparison would only echo it)
+        F.append("merged-edge-positions-invalid: %r (merged %r)" % (bad_pos, [d1.segs[n]["line"] for n in chain_of_new]))
+        return F
+
     # outward dovetails: images of every dovetail that is not an internal join
     def key(ends, ovl):
         return (tuple(sorted(ends)), G.ovl_norm(ovl))
@@ -211,9 +254,6 @@ def oracle(case):
         miss = [k for k in want if want[k] > have.get(k, 0)]
         extra = [k for k in have if have[k] > want.get(k, 0)]
         F.append("outward-dovetails-wrong: chains %r: missing %r, unexpected %r" % (sorted(chain_of_new.items()), miss, extra))
-    bad_pos = [e["line"] for e in d1.edges if not e["valid"]]
-    if bad_pos:
-        F.append("merged-edge-positions-invalid: %r (merged %r)" % (bad_pos, [d1.segs[n]["line"] for n in chain_of_new]))
     # frame
     T = G.touching(d0, members)
     untouched = G.multiset(r_["line"] for r_ in d0.recs if r_["idx"] not in T)
